@@ -618,3 +618,107 @@ func TestFaultEnumeration(t *testing.T) {
 		P.SetExhaustive()
 	}
 }
+
+// TestSizeSweep: stream == buffer (read with 1-byte / 7-byte / data+EOF
+// chunkings, clean write) for a token of every sealed size around the framing
+// / buffer boundaries, as a token and inside each container format.
+func TestSizeSweep(t *testing.T) {
+	n := 0
+	for _, size := range tok.SweepSizes() {
+		d, _, ok := tok.PaddedDlg(size)
+		if !ok {
+			continue
+		}
+		for ai, art := range []string{"token", "car", "carb64", "cbor", "cborb64"} {
+			if (size+ai)%2 == 1 && !h.Thorough() {
+				continue
+			}
+			base := Case{Toks: []tok.Tok{d}, Art: art}
+			for _, ch := range [][]int{nil, {7}, {4096}} {
+				cs := base
+				cs.Op, cs.Chunk, cs.DataWithEOF = "chunk", ch, size%2 == 0
+				prop.One(t, cs)
+				n++
+			}
+			cs := base
+			cs.Op = "writefault" // FaultKind "" = clean run: stream bytes == buffered bytes, CID of the sink
+			prop.One(t, cs)
+			n++
+		}
+	}
+	P.SetExtra("size_sweep_cases", n)
+}
+
+// ---------- overlapping stream reads (race-detector build) ----------
+
+type ConcCase struct {
+	Sets       [][]tok.Tok `json:"sets"`
+	Goroutines int         `json:"goroutines"`
+	Chunk      []int       `json:"chunk"`
+}
+
+// runConc: several goroutines read different containers / tokens from chunked
+// streams at the same time; each must get what decoding its own bytes from
+// memory gives.
+func runConc(c *h.Ctx, cc ConcCase) {
+	type job struct {
+		cs   Case
+		b    *built
+		want outcome
+	}
+	var jobs []job
+	for i, set := range cc.Sets {
+		art := arts[2+i%4] // the four container formats
+		if len(set) == 1 && i%3 == 0 {
+			art = "token"
+		}
+		cs := Case{Toks: set, Art: art}
+		if art == "token" {
+			cs.Toks = set[:1]
+		}
+		b, ok := buildArtefact(cs)
+		if !ok {
+			continue
+		}
+		want := readBuffered(cs, b.kind, b.bytes)
+		if want.err {
+			continue
+		}
+		jobs = append(jobs, job{cs, b, want})
+	}
+	if len(jobs) == 0 {
+		return
+	}
+	bad := make(chan string, 16)
+	if pv := h.Concurrently(cc.Goroutines, func(g int) {
+		for r := 0; r < 6; r++ {
+			j := jobs[(g+r)%len(jobs)]
+			rd := &faultReader{data: j.b.bytes, limit: -1, chunk: cc.Chunk, dataWithEOF: (g+r)%2 == 0}
+			got := readStream(j.cs, j.b.kind, rd)
+			if !same(got, j.want) {
+				select {
+				case bad <- fmt.Sprintf("%s read from a stream while other streams are being read gives %s, decoding the same bytes from memory gives %s", j.cs.Art, got, j.want):
+				default:
+				}
+			}
+		}
+	}); pv != nil {
+		c.Fail("C18/read/concurrent-panic", "panic while reading streams concurrently: %v", pv)
+	}
+	close(bad)
+	for b := range bad {
+		c.Fail("C18/read/concurrent-streams-interfere", "%s", b)
+	}
+	c.P.NonTrivial([]any{"conc", len(jobs), cc.Goroutines, cc.Chunk}, map[string]any{"op": "concurrent-stream-reads", "artefacts": len(jobs), "goroutines": cc.Goroutines, "chunks": cc.Chunk})
+}
+
+var concProp = h.Define(P, "concurrent", func(t *rapid.T) ConcCase {
+	cc := ConcCase{Goroutines: rapid.IntRange(2, 8).Draw(t, "goroutines"), Chunk: rapid.SliceOfN(rapid.IntRange(1, 64), 0, 3).Draw(t, "chunk")}
+	n := rapid.IntRange(2, 4).Draw(t, "nsets")
+	for i := 0; i < n; i++ {
+		cc.Sets = append(cc.Sets, drawToks(t, rapid.IntRange(1, 3).Draw(t, "ntok")))
+	}
+	return cc
+}, runConc)
+
+func TestConcurrentStreams(t *testing.T) { concProp.Check(t) }
